@@ -160,7 +160,7 @@ def replay_history(ctx, Vector, hist, jitter=0.0, site_prefix="Vector"):
 
 
 def spec_to_code(ctx, Vector):
-    res = ctx.tlc("VectorDump", "MC_VectorDump_%s.cfg" % ctx.tier, timeout=3000, heap="6g")
+    res = ctx.tlc("VectorDump", "MC_VectorDump_%s.cfg" % ctx.tier, workers=16, timeout=3000, heap="6g")
     n = bad = 0
     for line in res.out.splitlines():
         if not line.startswith('"['):
@@ -271,7 +271,7 @@ def code_to_spec(ctx, Vector, nhist, maxsteps):
     with open(path, "w") as f:
         for r in lines:
             f.write(json.dumps(r) + "\n")
-    res = ctx.tlc("VectorTrace", "MC_VectorTrace.cfg", workers=1, timeout=3000,
+    res = ctx.tlc("VectorTrace", "MC_VectorTrace.cfg", timeout=3000,
                   env={"TRACE_FILE": str(path)}, expect_clean=False)
     if res.violated:
         # contract invariant violated on a recorded state: find the line from the trace output
@@ -296,6 +296,23 @@ def code_to_spec(ctx, Vector, nhist, maxsteps):
                                "history": hist})
                 nrej += 1
                 break
+    # binding demonstration: one logged post-state corrupted -> that step must not be consumed by VectorTrace
+    import copy
+    target = next((k for k in range(len(lines) // 3, len(lines)) if lines[k]["op"] not in ("new",) and lines[k]["objs"][0]["values"]
+                   and isinstance(lines[k]["objs"][0]["values"][0], int) and abs(lines[k]["objs"][0]["values"][0]) < 10 ** 6), None)
+    if target is None:
+        raise Machinery("VectorTrace: binding demonstration found no step to corrupt")
+    bad = copy.deepcopy(lines)
+    bad[target]["objs"][0]["values"][0] += 1
+    cpath = str(path) + ".corrupt"
+    with open(cpath, "w") as f:
+        for r in bad:
+            f.write(json.dumps(r) + "\n")
+    resb = ctx.tlc("VectorTrace", "MC_VectorTrace.cfg", timeout=3000, env={"TRACE_FILE": cpath}, expect_clean=False)
+    okb = set(int(line.strip("<>").split(",")[1]) for line in resb.tuples("OK"))
+    if (target + 1) in okb and not resb.violated:
+        raise Machinery("VectorTrace: binding demonstration - a corrupted logged state (line %d) was accepted" % (target + 1))
+    ctx.part("binding_demo_VectorTrace", corrupted_step=target + 1, rejected=True)
     ctx.traces += nhist
     ctx.sample({"code->spec history": [[x["op"], x["o"], x["i"], x["v"], x["vec"], x["outcome"]]
                                        for x in lines[starts[0]:starts[1]]][:8]})
@@ -312,7 +329,8 @@ def run(ctx):
                 "after every step; C->S: seeded random histories (0-4 names, up to 40 steps, 2 objects) validated step by step by VectorTrace.tla; "
                 "transforms: TransformState.tla interleavings replayed on all 13 classes. non-trivial = history with at least one "
                 "operation after an accepted constructor; distinct = distinct action sequences.")
-    res = ctx.tlc("Vector", "MC_Vector_%s.cfg" % ctx.tier, timeout=3000, heap="6g")
+    res = ctx.tlc("Vector", "MC_Vector_%s.cfg" % ctx.tier, workers=16, timeout=3000, heap="6g", coverage=True)
+    ctx.require_actions(res, ["SetAttr", "SetBadKey", "SetAll", "Reset", "Clone"], "Vector")
     if res.violated:
         raise Machinery("Vector.tla violates its own contract: %s" % res.violated)
     ctx.part("vector_model_check", states=res.distinct, generated=res.generated, depth=res.depth,
